@@ -302,6 +302,8 @@ fn run_pos(f: &[&str]) -> String {
             let ch: u32 = f[4].parse().unwrap();
             with_ctx(|ctx| {
                 let db = &mut ctx.lsp.compiler_state.db;
+                // no other definitions around (a document of an earlier case may define the same field)
+                db.insert_iso_literal(ctx.proj.rel(CASE_FILE), String::new());
                 db.insert_iso_literal(ctx.proj.rel("src/ga.ts"), a.clone());
                 db.insert_iso_literal(ctx.proj.rel("src/gc.ts"), c.clone());
                 let uri = ctx.proj.uri("src/gc.ts");
